@@ -1320,12 +1320,16 @@ func (vm *VirtualMachine) initContext(ctx context.Context) context.Context {
 // approaches. If the OS is not provided via context or WithOS, NewSimpleOS is
 // used as a default.
 func (vm *VirtualMachine) getOS(ctx context.Context) os.OS {
-	v, ok := os.GetOS(ctx)
-	if ok {
-		return v
-	}
+	// The OS given to this VM with WithOS comes first. The context may carry
+	// one as well without the host having put it there for this VM: a
+	// builtin that evaluates code of its own is handed the context of the VM
+	// that called it, in which that VM has installed its OS (the real one, by
+	// default).
 	if vm.os != nil {
 		return vm.os
+	}
+	if v, ok := os.GetOS(ctx); ok {
+		return v
 	}
 	return os.NewSimpleOS(ctx)
 }
